@@ -181,7 +181,6 @@ def _parse_op(description, el_op, invocation, allow_concat=False, implicit_outpu
                 # -> Replace single input bracket with single output bracket
                 def _to_output(expr):
                     bracket_num = len([e for e in expr.nodes() if isinstance(e, stage1.Brackets)])
-                    assert bracket_num > 0
                     if bracket_num == 1:
 
                         def _replace(expr):
@@ -215,7 +214,11 @@ def _parse_op(description, el_op, invocation, allow_concat=False, implicit_outpu
     op = stage1.Op([stage1.Args(exprs_in), stage1.Args(exprs_out)])
     el_subop = _to_el_expr(op)
     assert len(el_op.children[0].children) == len(el_subop.children[0].children)
-    assert len(el_op.children[1].children) == len(el_subop.children[1].children)
+    if len(el_op.children[1].children) != len(el_subop.children[1].children):
+        raise SemanticError(
+            invocation=invocation,
+            message=f"The operation expects {len(el_op.children[1].children)} output expression(s), but found {len(el_subop.children[1].children)}.\n%EXPR%",
+        )
 
     # Check bracket usage
     def _to_ordinal_str(i):
